@@ -3,12 +3,13 @@
         -> <hex of the file>|<valid 0/1>|<known class or ->|<fuel>           (encoder E; model only)
       storages: '-' or ';'-separated names (hex of UTF-8)
       streams : '-' or ';'-separated <name hex>:<content hex>
-      layout  : nsect|fat ids|difat ids|dir ids|minifat ids|root ids|nmini|chains|slots|pad|size_hi
+      layout  : nsect|fat ids|difat ids|dir ids|minifat ids|root ids|nmini|chains|slots|pad|size_hi|empty_start
                 id lists are ','-separated decimals ('' = empty), chains are '/'-separated id lists
    cfb <hex of a file> <fuel> <ops>
         -> new=<ok | err:<class> | panic | fuel>[;<answer per op>…]          (model M; both sides)
       ops: ';'-separated  h:<name hex> (has_directory) | g:<name hex> (get_stream) | n (names)
-      answers: 0/1 | ok:<hex> / err:<class> / panic / fuel | n:<name hex>,…  *)
+      answers: 0/1 | ok:<hex> / err:<class> / panic / fuel | n:<name hex>,…
+      (processing stops at a panic and at an error other than notfound)  *)
 open Conv
 open Prelude
 open Cfb
@@ -46,11 +47,12 @@ let parse_container ss storages streams : container =
 
 let parse_layout (s : string) : layout =
   match String.split_on_char '|' s with
-  | [nsect; fat; difat; dir; minifat; root; nmini; chains; slots; pad; hi] ->
+  | [nsect; fat; difat; dir; minifat; root; nmini; chains; slots; pad; hi; es] ->
     { l_nsect = n_of_string nsect; l_fat_ids = ids fat; l_difat_ids = ids difat; l_dir_ids = ids dir;
       l_minifat_ids = ids minifat; l_root_ids = ids root; l_nmini = n_of_string nmini;
       l_chains = (if chains = "-" then [] else List.map ids (String.split_on_char '/' chains));
-      l_slots = ids slots; l_pad = n_of_string pad; l_size_hi = n_of_string hi }
+      l_slots = ids slots; l_pad = n_of_string pad; l_size_hi = n_of_string hi;
+      l_empty_start = n_of_string es }
   | _ -> failwith "bad layout"
 
 let run_write (args : string list) : string =
@@ -60,7 +62,7 @@ let run_write (args : string list) : string =
     let l = parse_layout lay in
     let file = cfb_write c l in
     let valid = valid_layoutb c l in
-    let known = match known_C13 c l with Some k -> string_of_n k | None -> "-" in
+    let known = "-" in   (* no known class since the fix of bom_name *)
     Printf.sprintf "%s|%d|%s|%d" (hex_of_bytes_fast file) (if valid then 1 else 0) known
       (int_of_nat (fuel_for l))
   | _ -> failwith "bad args"
@@ -88,7 +90,9 @@ let run_read (args : string list) : string =
              | 'g' ->
                (match get_stream !c name !r with
                 | Ok ((b, c1), r1) -> c := c1; r := r1; "ok:" ^ hex_of_bytes_fast b
-                | Err e -> "err:" ^ err_class e
+                | Err e ->
+                  (* an I/O error may leave the sector cache grown in the real code: stop *)
+                  if err_class e <> "notfound" then stopped := true; "err:" ^ err_class e
                 | Panic -> stopped := true; "panic"
                 | OutOfFuel -> stopped := true; "fuel")
              | _ -> failwith "bad op")) ops in
